@@ -1,16 +1,17 @@
 /-
-C05 — `UnionFindDecoder` on `Toric2DCode`, ALL lattice sizes.
+C05 — `UnionFindDecoder` on `Toric2DCode`, ALL lattice sizes of the supported family (`Lx, Ly ≥ 2`).
 
 `Properties/C05UnionFind.lean` proves that the model of `Support.decode()`
-(`panqec/decoders/union_find/uf_support.py`) terminates and returns a binary vector with exactly
-the given syndrome on every parity-check matrix satisfying the decidable predicate `closedGraph`
-(0/1 entries, every column of weight 0 or 2, no two rows sharing two columns), for every error and
-every schedule of set iteration orders.  This file closes the remaining gap: the two matrices
-that `UnionFindDecoder.decode` (`uf_decoder.py`) hands to `Support` — `code.Hz` (the Z block of
-the vertex rows, with the Z-row syndrome) and `code.Hx` (the X block of the face rows, with the
-X-row syndrome) of the parity-check matrix that the generic code assembles from the all-sizes
-lattice model `Model/Lattices/Toric2DCode.lean` (`(lattice Lx Ly).rowsH`,
-`C01Toric2DCode.valid_code`) — satisfy `closedGraph` for EVERY `Lx, Ly ≥ 3`.
+(`panqec/decoders/union_find/uf_support.py`, with `Peeling_Tree.peel` as repaired for the former
+finding D15) terminates and returns a binary vector with exactly the given syndrome on every
+parity-check matrix satisfying the decidable predicate `closedMultigraph` (0/1 entries, every
+column of weight 0 or 2, two rows sharing fewer than 256 columns — parallel edges allowed), for
+every error and every schedule of set iteration orders.  This file closes the remaining gap: the
+two matrices that `UnionFindDecoder.decode` (`uf_decoder.py`) hands to `Support` — `code.Hz` (the Z
+block of the vertex rows, with the Z-row syndrome) and `code.Hx` (the X block of the face rows,
+with the X-row syndrome) of the parity-check matrix that the generic code assembles from the
+all-sizes lattice model `Model/Lattices/Toric2DCode.lean` (`(lattice Lx Ly).rowsH`,
+`C01Toric2DCode.valid_code`) — satisfy `closedMultigraph` for EVERY `Lx, Ly ≥ 2`.
 
 * `toric_sector_matrices`          (sides ≥ 2) the matrix is CSS; `Hz` is the vertex/qubit and `Hx`
                                    the face/qubit incidence matrix (`inc s q` ⇔ `q` is a key of the
@@ -19,22 +20,30 @@ lattice model `Model/Lattices/Toric2DCode.lean` (`(lattice Lx Ly).rowsH`,
 * `toric_qubit_on_two_generators`  (sides ≥ 2) every qubit lies in exactly two vertex operators and
                                    in exactly two face operators; `toric_column_weight_two`: every
                                    column of `Hz` and of `Hx` has weight exactly 2;
-* `toric_generators_share_at_most_one` (sides ≥ 3) two different generators of one type share at
+* `toric_generators_share_at_most_four` (sides ≥ 2) two generators share at most four qubits;
+  `toric_generators_share_at_most_one`  (sides ≥ 3) two different generators of one type share at
                                    most one qubit;
-* `toric_sectors_closed`           (sides ≥ 3) `closedGraph (Hz H)` and `closedGraph (Hx H)`;
-* `unionfind_toric_reproduces_syndrome` (sides ≥ 3) for every Pauli error `e` on the `2·Lx·Ly`
-                                   qubits and every schedule, the modelled
-                                   `UnionFindDecoder.decode(measure_syndrome(e))` returns (no
-                                   exception, no divergence) a binary vector of length `2n` with
-                                   exactly the measured syndrome; `e ⊕ c` is in the code space;
+* `toric_sectors_closed_multigraph` (sides ≥ 2) `closedMultigraph (Hz H)` and `closedMultigraph (Hx H)`;
+  `toric_sectors_closed`           (sides ≥ 3) moreover `closedGraph` (no parallel edges);
+* `unionfind_toric_reproduces_syndrome` (sides ≥ 2: the WHOLE supported family, side 2 included)
+                                   for every Pauli error `e` on the `2·Lx·Ly` qubits and every
+                                   schedule, the modelled `UnionFindDecoder.decode(measure_syndrome(e))`
+                                   returns (no exception, no divergence) a binary vector of length
+                                   `2n` with exactly the measured syndrome; `e ⊕ c` is in the code space;
 * `unionfind_toric_outcome`        with `C01Toric2DCode.valid_code` and C04: the run is reported as a
                                    success exactly when the residual `e ⊕ c` is a product of
                                    generators;
-* `toric_side_two_not_graphLike`   the converse side, for every size with a side equal to 2
-                                   (`(2, Ly)` and `(Lx, 2)`, any other side ≥ 2): both sector
-                                   matrices have PARALLEL EDGES (two generators joined by two
-                                   qubits), so they are not even `graphLike` — the root cause of
-                                   the known finding (`C05UnionFind.uf_fails_on_parallel_edges`).
+* `toric_side_two_not_graphLike`   for every size with a side equal to 2 (`(2, Ly)` and `(Lx, 2)`,
+                                   any other side ≥ 2) both sector matrices have PARALLEL EDGES (two
+                                   generators joined by two qubits): not `graphLike` — the root cause
+                                   of the former finding D15; `toric_sectors_closed_iff`: `closedGraph`
+                                   holds exactly for sides ≥ 3;
+* regression, decoder level: `old_unionfind_toric22_wrong_syndrome` — `UnionFindDecoder.decode` with
+                                   the internals BEFORE the repair returned, on `Toric2DCode(2,2)` and
+                                   an X error on qubit 0, a correction with the wrong syndrome;
+                                   `unionfind_toric22_fixed` — with the repaired internals the same
+                                   call returns the error itself; `old_unionfind_toric_sides_ge_three` —
+                                   on sides ≥ 3 the code before the repair was correct too.
 
 Helper lemmas: `Proofs/UnionFindIncidence.lean` (incidence criterion),
 `Proofs/LatToric2DCodeSector.lean` (sector matrices = incidence matrices),
@@ -115,8 +124,22 @@ theorem toric_generators_share_at_most_one (Lx Ly : Nat) (hx : 3 ≤ Lx) (hy : 3
   · exact key 0 (Or.inl rfl) (mem_verts.mp h1) (mem_verts.mp h2)
   · exact key 1 (Or.inr rfl) (mem_faces.mp h1) (mem_faces.mp h2)
 
-/-- **THE GAP, CLOSED**: for every `Lx, Ly ≥ 3` both sector matrices of the assembled
-    parity-check matrix of `Toric2DCode(Lx, Ly)` satisfy `closedGraph`. -/
+/-- two generators (of any type) share at most four qubits (any size): far below the bound 256
+    of `multigraphLike` -/
+theorem toric_generators_share_at_most_four (Lx Ly : Nat) (v w : Coord) :
+    (qubits Lx Ly).countP (fun q => inc Lx Ly v q && inc Lx Ly w q) ≤ 4 :=
+  share_le_four v w
+
+/-- **THE GAP, CLOSED FOR THE WHOLE FAMILY**: for every `Lx, Ly ≥ 2` both sector matrices of the
+    assembled parity-check matrix of `Toric2DCode(Lx, Ly)` satisfy `closedMultigraph` (every
+    column of weight 2; parallel edges when a side is 2). -/
+theorem toric_sectors_closed_multigraph (Lx Ly : Nat) (hx : 2 ≤ Lx) (hy : 2 ≤ Ly) :
+    closedMultigraph (Hz (lattice Lx Ly).rowsH) = true ∧
+    closedMultigraph (Hx (lattice Lx Ly).rowsH) = true :=
+  ⟨closedMultigraph_Hz hx hy, closedMultigraph_Hx hx hy⟩
+
+/-- for every `Lx, Ly ≥ 3` both sector matrices are moreover simple: `closedGraph` (the hypothesis
+    under which the code before the repair was correct). -/
 theorem toric_sectors_closed (Lx Ly : Nat) (hx : 3 ≤ Lx) (hy : 3 ≤ Ly) :
     closedGraph (Hz (lattice Lx Ly).rowsH) = true ∧
     closedGraph (Hx (lattice Lx Ly).rowsH) = true :=
@@ -124,8 +147,8 @@ theorem toric_sectors_closed (Lx Ly : Nat) (hx : 3 ≤ Lx) (hy : 3 ≤ Ly) :
 
 /-- hence `Support(sy, Hz).decode()` and `Support(sy, Hx).decode()` are total and correct on the
     syndrome of every error, for every schedule, and never leave the modelled fragment
-    (`uf_decode_total` instantiated at the two sector matrices of every lattice) -/
-theorem toric_support_decode_total (Lx Ly : Nat) (hx : 3 ≤ Lx) (hy : 3 ≤ Ly) (v : Vec)
+    (`uf_decode_total` instantiated at the two sector matrices of every lattice, side 2 included) -/
+theorem toric_support_decode_total (Lx Ly : Nat) (hx : 2 ≤ Lx) (hy : 2 ≤ Ly) (v : Vec)
     (hv : v.length = 2 * Lx * Ly) (sched : List (List Int)) :
     ∀ M, (M = Hz (lattice Lx Ly).rowsH ∨ M = Hx (lattice Lx Ly).rowsH) →
       ∃ c, (decodeWith M (sectorSyndrome M v) sched).outcome = .ok c ∧ c.length = 2 * Lx * Ly ∧
@@ -133,20 +156,21 @@ theorem toric_support_decode_total (Lx Ly : Nat) (hx : 3 ≤ Lx) (hy : 3 ≤ Ly)
         (decodeWith M (sectorSyndrome M v) sched).bad = false := by
   rintro M (rfl | rfl)
   · have hn := ncols_Hz (Lx := Lx) (Ly := Ly) (by omega) (by omega)
-    have := C05UF.uf_decode_total _ (closedGraph_Hz hx hy) v (by rw [hn]; exact hv) sched
+    have := C05UF.uf_decode_total _ (closedMultigraph_Hz hx hy) v (by rw [hn]; exact hv) sched
     rwa [hn] at this
   · have hn := ncols_Hx (Lx := Lx) (Ly := Ly) (by omega) (by omega)
-    have := C05UF.uf_decode_total _ (closedGraph_Hx hx hy) v (by rw [hn]; exact hv) sched
+    have := C05UF.uf_decode_total _ (closedMultigraph_Hx hx hy) v (by rw [hn]; exact hv) sched
     rwa [hn] at this
 
-/-- **UnionFindDecoder on every `Toric2DCode(Lx, Ly)`, `Lx, Ly ≥ 3`**: the matrix `H` below is what
+/-- **UnionFindDecoder on every `Toric2DCode(Lx, Ly)`, `Lx, Ly ≥ 2`** (the whole supported family;
+    sides of length 2 included since the repair of `peel`): the matrix `H` below is what
     `code.stabilizer_matrix` assembles (no `KeyError`); for every Pauli error `e` (any vector of
     length `2n`, `n = 2·Lx·Ly`) and every schedule of set iteration orders (which may depend on
     the matrix and the syndrome of the call), `decode(measure_syndrome(e))` of the model
     (glue of `uf_decoder.py` + internals of `uf_support.py`) returns — no exception, no
     divergence — a binary vector `c` of length `2n` with `measure_syndrome(c) =
     measure_syndrome(e)`, and `e ⊕ c` is in the code space. -/
-theorem unionfind_toric_reproduces_syndrome (Lx Ly : Nat) (hx : 3 ≤ Lx) (hy : 3 ≤ Ly)
+theorem unionfind_toric_reproduces_syndrome (Lx Ly : Nat) (hx : 2 ≤ Lx) (hy : 2 ≤ Ly)
     (sched : Mat → Vec → List (List Int)) (e : Vec) (he : e.length = 2 * (2 * Lx * Ly)) :
     stabilizerMatrix (lattice Lx Ly).toCodeData = some (lattice Lx Ly).rowsH ∧
     ∃ c ev, ufDecode (ufSolveSched sched) (lattice Lx Ly).rowsH (2 * Lx * Ly)
@@ -154,31 +178,29 @@ theorem unionfind_toric_reproduces_syndrome (Lx Ly : Nat) (hx : 3 ≤ Lx) (hy : 
       c.length = 2 * (2 * Lx * Ly) ∧ (∀ x ∈ c, x < 2) ∧
       measureSyndrome (lattice Lx Ly).rowsH c = measureSyndrome (lattice Lx Ly).rowsH e ∧
       inCodespace (lattice Lx Ly).rowsH (vxor e c) = true := by
-  have hx2 : 2 ≤ Lx := by omega
-  have hy2 : 2 ≤ Ly := by omega
-  refine ⟨(C01Toric2DCode.valid_code Lx Ly hx2 hy2).1, ?_⟩
+  refine ⟨(C01Toric2DCode.valid_code Lx Ly hx hy).1, ?_⟩
   obtain ⟨c, ev, h1, h2, h3, h4⟩ := ufDecode_sched_valid sched (lattice Lx Ly).rowsH
-    (2 * Lx * Ly) (isCss_rowsH hx2 hy2) (closedGraph_Hz hx hy) (closedGraph_Hx hx hy)
-    (ncols_Hz hx2 hy2) (ncols_Hx hx2 hy2) e he
+    (2 * Lx * Ly) (isCss_rowsH hx hy) (closedMultigraph_Hz hx hy) (closedMultigraph_Hx hx hy)
+    (ncols_Hz hx hy) (ncols_Hx hx hy) e he
   exact ⟨c, ev, h1, h2, h3, h4, in_codespace_of_same_syndrome _ e c (by omega) h4⟩
 
 /-- the same for the list-order schedule `ufSolve` of `Model/UnionFind.lean` (the solver of
     `C05UnionFind.unionfind_decoder_reproduces_syndrome`) -/
-theorem unionfind_toric_reproduces_syndrome_list_order (Lx Ly : Nat) (hx : 3 ≤ Lx) (hy : 3 ≤ Ly)
+theorem unionfind_toric_reproduces_syndrome_list_order (Lx Ly : Nat) (hx : 2 ≤ Lx) (hy : 2 ≤ Ly)
     (e : Vec) (he : e.length = 2 * (2 * Lx * Ly)) :
     ∃ c ev, ufDecode ufSolve (lattice Lx Ly).rowsH (2 * Lx * Ly)
         (measureSyndrome (lattice Lx Ly).rowsH e) = .ok (c, ev) ∧
       c.length = 2 * (2 * Lx * Ly) ∧ (∀ x ∈ c, x < 2) ∧
       measureSyndrome (lattice Lx Ly).rowsH c = measureSyndrome (lattice Lx Ly).rowsH e :=
-  C05UF.unionfind_decoder_reproduces_syndrome _ _ (isCss_rowsH (by omega) (by omega))
-    (closedGraph_Hz hx hy) (closedGraph_Hx hx hy) (ncols_Hz (by omega) (by omega))
-    (ncols_Hx (by omega) (by omega)) e he
+  C05UF.unionfind_decoder_reproduces_syndrome _ _ (isCss_rowsH hx hy)
+    (closedMultigraph_Hz hx hy) (closedMultigraph_Hx hx hy) (ncols_Hz hx hy)
+    (ncols_Hx hx hy) e he
 
 /-- **what the run is reported as** (with `C01Toric2DCode.valid_code` and
     `C04.success_iff_stabilizer`): for a binary error `e` the residual `e ⊕ c` of the decoder's
     answer is in the code space, and `is_success(e ⊕ c)` is `true` exactly when the residual is
     a product of stabilizer generators — for every size, error and schedule. -/
-theorem unionfind_toric_outcome (Lx Ly : Nat) (hx : 3 ≤ Lx) (hy : 3 ≤ Ly)
+theorem unionfind_toric_outcome (Lx Ly : Nat) (hx : 2 ≤ Lx) (hy : 2 ≤ Ly)
     (sched : Mat → Vec → List (List Int)) (dt : DType) (e : Vec)
     (he : e.length = 2 * (2 * Lx * Ly)) :
     ∃ c ev, ufDecode (ufSolveSched sched) (lattice Lx Ly).rowsH (2 * Lx * Ly)
@@ -192,11 +214,12 @@ theorem unionfind_toric_outcome (Lx Ly : Nat) (hx : 3 ≤ Lx) (hy : 3 ≤ Ly)
   exact C04.success_iff_stabilizer hv dt (vxor e c)
     (by rw [vxor_length_alg e c (by omega)]; exact he) (vxor_binary e c)
 
-/-- **the converse side, all sizes**: as soon as one side is 2 (the other any size ≥ 2) both
+/-- **parallel edges, all sizes**: as soon as one side is 2 (the other any size ≥ 2) both
     sector matrices have two generators joined by two qubits — `(0,0)`–`(2,0)` through `(1,0)`
-    and `(3,0)` for `Lx = 2`, … — hence are not `graphLike` and the theorems of
-    `C05UnionFind` do not apply; on them the decoder does return wrong corrections
-    (`C05UnionFind.uf_fails_on_parallel_edges`, known finding). -/
+    and `(3,0)` for `Lx = 2`, … — hence are not `graphLike`: on them the code BEFORE the repair of
+    `peel` returned wrong corrections (`C05UnionFind.old_uf_fails_on_parallel_edges`, the former
+    finding D15); they are closed multigraphs (`toric_sectors_closed_multigraph`) and the repaired
+    code is correct on them. -/
 theorem toric_side_two_not_graphLike (Lx Ly : Nat) (hx : 2 ≤ Lx) (hy : 2 ≤ Ly)
     (h2 : Lx = 2 ∨ Ly = 2) :
     graphLike (Hz (lattice Lx Ly).rowsH) = false ∧ graphLike (Hx (lattice Lx Ly).rowsH) = false := by
@@ -204,8 +227,8 @@ theorem toric_side_two_not_graphLike (Lx Ly : Nat) (hx : 2 ≤ Lx) (hy : 2 ≤ L
   · exact parallel_x hy
   · exact parallel_y hx
 
-/-- so `closedGraph` of the sector matrices holds EXACTLY for sides ≥ 3 (within the supported
-    family `Lx, Ly ≥ 2`) -/
+/-- so `closedGraph` (no parallel edges) of the sector matrices holds EXACTLY for sides ≥ 3
+    (within the supported family `Lx, Ly ≥ 2`), while `closedMultigraph` holds for all of them -/
 theorem toric_sectors_closed_iff (Lx Ly : Nat) (hx : 2 ≤ Lx) (hy : 2 ≤ Ly) :
     (closedGraph (Hz (lattice Lx Ly).rowsH) = true ∧ closedGraph (Hx (lattice Lx Ly).rowsH) = true)
       ↔ (3 ≤ Lx ∧ 3 ≤ Ly) := by
@@ -220,7 +243,67 @@ theorem toric_sectors_closed_iff (Lx Ly : Nat) (hx : 2 ≤ Lx) (hy : 2 ≤ Ly) :
   · intro ⟨h1, h2⟩
     exact toric_sectors_closed Lx Ly h1 h2
 
+/-! ### regression at the decoder level: before and after the repair of `peel` -/
+
+/-- `UnionFindDecoder.decode` with the internals BEFORE the repair (`oldUfSolve`) on every
+    `Toric2DCode(Lx, Ly)` with sides ≥ 3: correct too (list order) — the repair was needed for
+    sides of length 2 only -/
+theorem old_unionfind_toric_sides_ge_three (Lx Ly : Nat) (hx : 3 ≤ Lx) (hy : 3 ≤ Ly)
+    (e : Vec) (he : e.length = 2 * (2 * Lx * Ly)) :
+    ∃ c ev, ufDecode oldUfSolve (lattice Lx Ly).rowsH (2 * Lx * Ly)
+        (measureSyndrome (lattice Lx Ly).rowsH e) = .ok (c, ev) ∧
+      c.length = 2 * (2 * Lx * Ly) ∧ (∀ x ∈ c, x < 2) ∧
+      measureSyndrome (lattice Lx Ly).rowsH c = measureSyndrome (lattice Lx Ly).rowsH e := by
+  have hx2 : 2 ≤ Lx := by omega
+  have hy2 : 2 ≤ Ly := by omega
+  obtain ⟨c, ev, h1, _, h3, h4, h5⟩ := uf_valid oldUfSolve (lattice Lx Ly).rowsH (2 * Lx * Ly)
+    (isCss_rowsH hx2 hy2)
+    (ncols_Hz hx2 hy2 ▸ C05UF.old_uf_solver_contract _ (closedGraph_Hz hx hy))
+    (ncols_Hx hx2 hy2 ▸ C05UF.old_uf_solver_contract _ (closedGraph_Hx hx hy)) e he
+  exact ⟨c, ev, h1, h3, h4, h5⟩
+
+/-- X error on qubit 0 of `Toric2DCode(2, 2)` (8 qubits: `[x | z]`, 16 entries) -/
+def x0Toric22 : Vec := [1,0,0,0,0,0,0,0, 0,0,0,0,0,0,0,0]
+
+/-- **the former finding D15 at the decoder level**: on `Toric2DCode(2,2)` and an X error on
+    qubit 0, `UnionFindDecoder.decode(measure_syndrome(e))` with the internals BEFORE the repair
+    returned X on qubits 0 and 2, whose syndrome is zero, not the measured one. -/
+theorem old_unionfind_toric22_wrong_syndrome :
+    ∃ c ev, ufDecode oldUfSolve (lattice 2 2).rowsH 8 (measureSyndrome (lattice 2 2).rowsH x0Toric22)
+        = .ok (c, ev) ∧ c = [1,0,1,0,0,0,0,0, 0,0,0,0,0,0,0,0] ∧
+      measureSyndrome (lattice 2 2).rowsH c ≠ measureSyndrome (lattice 2 2).rowsH x0Toric22 := by
+  refine ⟨_, _, rfl, ?_, ?_⟩
+  · decide +kernel
+  · decide +kernel
+
+/-- **after the repair** the same call returns the error itself (kernel-evaluated instance of
+    `unionfind_toric_reproduces_syndrome` at `Lx = Ly = 2`) -/
+theorem unionfind_toric22_fixed :
+    ∃ c ev, ufDecode ufSolve (lattice 2 2).rowsH 8 (measureSyndrome (lattice 2 2).rowsH x0Toric22)
+        = .ok (c, ev) ∧ c = x0Toric22 ∧
+      measureSyndrome (lattice 2 2).rowsH c = measureSyndrome (lattice 2 2).rowsH x0Toric22 := by
+  refine ⟨_, _, rfl, ?_, ?_⟩
+  · decide +kernel
+  · decide +kernel
+
 /-! ### non-vacuity -/
+
+/-- side-2 lattices are inside the hypothesis of the decoder theorem: `(2, 2)`, `(2, 3)`, `(5, 2)` -/
+example : closedMultigraph (Hz (lattice 2 3).rowsH) = true ∧ closedMultigraph (Hx (lattice 5 2).rowsH) = true :=
+  ⟨(toric_sectors_closed_multigraph 2 3 (by decide) (by decide)).1,
+   (toric_sectors_closed_multigraph 5 2 (by decide) (by decide)).2⟩
+
+/-- the end-to-end theorem applies to a side-2 lattice: any error on `Toric2DCode(2, 3)`, any schedule -/
+example (sched : Mat → Vec → List (List Int)) (e : Vec) (he : e.length = 24) :
+    ∃ c ev, ufDecode (ufSolveSched sched) (lattice 2 3).rowsH (2 * 2 * 3)
+        (measureSyndrome (lattice 2 3).rowsH e) = .ok (c, ev) ∧
+      measureSyndrome (lattice 2 3).rowsH c = measureSyndrome (lattice 2 3).rowsH e :=
+  let ⟨_, c, ev, h1, _, _, h4, _⟩ := unionfind_toric_reproduces_syndrome 2 3 (by decide) (by decide) sched e he
+  ⟨c, ev, h1, h4⟩
+
+/-- the sector matrix of the 2×3 lattice is the matrix written out in `C05UnionFind` -/
+example : Hz (lattice 2 3).rowsH = C05UF.hzToric23 := by decide +kernel
+
 
 /-- a non-square lattice: `Toric2DCode(3, 4)`, 24 qubits, 12 + 12 generators -/
 example : closedGraph (Hz (lattice 3 4).rowsH) = true ∧ closedGraph (Hx (lattice 3 4).rowsH) = true :=
@@ -262,7 +345,7 @@ example : graphLike (Hz (lattice 2 3).rowsH) = false :=
   (toric_side_two_not_graphLike 2 3 (by decide) (by decide) (Or.inl rfl)).1
 example : graphLike (Hx (lattice 5 2).rowsH) = false :=
   (toric_side_two_not_graphLike 5 2 (by decide) (by decide) (Or.inr rfl)).2
-/-- the witness matrix of the known finding is the sector matrix of the 2×2 lattice -/
+/-- the witness matrix of the former finding is the sector matrix of the 2×2 lattice -/
 example : Hz (lattice 2 2).rowsH = C05UF.hzToric22 := by decide +kernel
 
 end Panqec.C05UFToric
